@@ -138,7 +138,7 @@ func opPatchScenario(seed uint64, target string, val, doc string, item int) *Sce
 // small set of pointers built around the empty reference token ("", "/", "//", "/a/", "//a": the
 // whole document versus the member named ""), on documents that have such members.
 var algebraPointers = []string{"", "/", "//", "/a", "/a/", "//a", "/0", "/-"}
-var algebraDocs = []string{`{"":1,"a":{"":2}}`, `[[1],{"":0}]`, `{"":{"":{}},"a":[{}]}`, `{}`}
+var algebraDocs = []string{`{"":1,"a":{"":2}}`, `[[1],{"":0}]`, `{"":{"":{}},"a":[{}]}`, `{}`, "\r\n\t {\"\":[1],\"a\":{\"\":2}}\r\n"}
 
 func algebraOps() []string {
 	var ops []string
